@@ -106,8 +106,35 @@ func (c *compiler) compileFile(astFile *ast.File, pkg *pkg.Package) *file {
 		UnnamedImports: make(map[string]struct{}),
 	}
 
+	var (
+		// Identifiers that are the Sel of a selector expression.
+		selected = make(map[*ast.Ident]struct{})
+		// Whether a directive reached through a dot import was reported.
+		dotReported bool
+	)
 	astWalk(astFile, func(n ast.Node) bool {
 		switch n := n.(type) {
+		case *ast.SelectorExpr:
+			selected[n.Sel] = struct{}{}
+			return true
+
+		case *ast.Ident:
+			// With the cff package imported as ".", a directive is a plain
+			// identifier, which the CallExpr case below does not recognize:
+			// the directive would be left in the output, unexpanded, without
+			// a word.
+			if _, ok := selected[n]; ok || dotReported {
+				return true
+			}
+			if fn, ok := c.info.Uses[n].(*types.Func); ok &&
+				isPackagePathEquivalent(fn.Pkg(), cffImportPath) &&
+				IsCodegenDirective(fn.Name()) {
+				dotReported = true
+				c.errf(c.nodePosition(n), "%v is referred to through a dot import of %q, which is not supported: "+
+					"import the package under a name", fn.Name(), cffImportPath)
+			}
+			return true
+
 		case *ast.ImportSpec:
 			// If the user defines a name for an import, we would like to track their name if we use it in the generated
 			// code
